@@ -9,7 +9,7 @@ LEAF = {
     'gu': 'grad(u)', 'gv': 'grad(v)', 'gup': 'grad(u,parametric=True)', 'gh': 'grad(h)', 'g': 'g', 'x': 'x',
     'uvec': 'u', 'vvec': 'v', 'u0': 'u[0]', 'u1': 'u[1]', 'w0': 'v[0]', 'w1': 'v[1]', 'divu': 'div(u)', 'divv': 'div(v)',
     'Gu': 'grad(u)', 'Gv': 'grad(v)',
-    'B': 'B', 'Ainv': 'inv(A)', 'Jinv': 'inv(jac)', 'Hu': 'hess(u)', 'Hv': 'hess(v)', 'A': 'A', 'J': 'jac', 'Gg': 'grad(g)',
+    'B': 'B', 'nrm': 'n', 'Ainv': 'inv(A)', 'Jinv': 'inv(jac)', 'Hu': 'hess(u)', 'Hv': 'hess(v)', 'A': 'A', 'J': 'jac', 'Gg': 'grad(g)',
 }
 UNARY = {
     'neg': '(-(%s))', 'sin': 'sin(%s)', 'cos': 'cos(%s)', 'exp': 'exp(%s)', 'log': 'log(%s)', 'sqrt': 'sqrt(%s)',
@@ -26,7 +26,7 @@ BINARY = {
 }
 
 
-def render(tokens):
+def render(tokens, measure='dx'):
     st = []
     for t in tokens:
         if t in LEAF:
@@ -41,7 +41,7 @@ def render(tokens):
             a = st.pop()
             st.append(BINARY[t] % (a, b))
     assert len(st) == 1
-    return '(%s)*dx' % st[0]
+    return '(%s)*%s' % (st[0], measure)
 
 
 def make_args(dim, kvs):
